@@ -155,6 +155,16 @@ def _normalize_run_space(value: Any) -> Any:
 
 
 def _compute_run_space_spec_id(run_space: Mapping[str, Any]) -> str:
+    # Hash the parsed specification (defaults filled in), exactly what the runtime
+    # hashes when it launches the run space, so that `inspect` and the trace agree.
+    from dataclasses import asdict
+
+    from semantiva.configurations.load_pipeline_from_yaml import _parse_run_space_block
+
+    try:
+        run_space = asdict(_parse_run_space_block(run_space))
+    except ValueError:
+        pass  # not a loadable block: fall back to the raw mapping
     normalized = _normalize_run_space(run_space)
     payload = json.dumps(normalized, separators=(",", ":"), ensure_ascii=False).encode(
         "utf-8"
